@@ -24,7 +24,10 @@ theorem cfg_from_code :
     cfg = { rewriteDelIdx := true, rewriteUnbId := true, govScanAll := true, orderOk := true,
             sigRequired := true, checkOperator := true, checkTarget := true,
             recKeyFrom := "GetMigratedRecordKey", recKeyTo := "GetMigratedRecordKey",
-            wRecFrom := true, wRecTo := true, wDirFrom := true, wDirTo := true, bankAll := true } := by decide
+            wRecFrom := true, wRecTo := true, wDirFrom := true, wDirTo := true, bankAll := true,
+            gProposerFrom := true, gProposerTo := true, gDepositFrom := true, gDepositTo := true,
+            gVoteDeposit := true, gVoteFrom := true, gVoteTo := true, qEveryEntry := true, qByDelegator := true } := by
+  decide
 
 /-- the bytes `ValidateBasic` hashes are prefix ++ source ++ target, in this order -/
 theorem signed_bytes_order (pfx : List Nat) (enc : Addr → List Nat) (frm to : Addr) :
@@ -38,6 +41,7 @@ def moved (s : State) (frm to : Addr) : State :=
   setRecord cfg (stakingExecute cfg (bankExecute cfg s frm to) frm to) frm to
 
 theorem cfg_bankAll : cfg.bankAll = true := by rw [cfg_from_code]
+theorem cfg_queue : cfg.qEveryEntry = true ∧ cfg.qByDelegator = true := by rw [cfg_from_code]; exact ⟨rfl, rfl⟩
 
 /-- the already-migrated guards read from the code are `HasMigrateRecord` (the record key family, keyed by the raw
 address whatever its role was) for the source and for the target -/
@@ -155,27 +159,27 @@ theorem target_without_staking_records {s s' : State} {frm to : Addr} {sigOk : B
 /-! ## what `Execute` does to each store (component folds) -/
 
 theorem moveUbd_dels (c : Cfg) (frm to : Addr) (s : State) (p) : (moveUbd c frm to s p).dels = s.dels := by
-  unfold moveUbd; exact foldl_keep (fun s : State => s.dels) _ (by intros; rfl) _ _
+  unfold moveUbd; exact (foldl_keep (fun s : State => s.dels) _ (by intros; rfl) _ _).trans (foldl_keep (fun s : State => s.dels) _ (by intros; rfl) _ _)
 theorem moveRed_dels (c : Cfg) (frm to : Addr) (s : State) (p) : (moveRed c frm to s p).dels = s.dels := by
-  unfold moveRed; exact foldl_keep (fun s : State => s.dels) _ (by intros; rfl) _ _
+  unfold moveRed; exact (foldl_keep (fun s : State => s.dels) _ (by intros; rfl) _ _).trans (foldl_keep (fun s : State => s.dels) _ (by intros; rfl) _ _)
 theorem moveUbd_startInfo (c : Cfg) (frm to : Addr) (s : State) (p) : (moveUbd c frm to s p).startInfo = s.startInfo := by
-  unfold moveUbd; exact foldl_keep (fun s : State => s.startInfo) _ (by intros; rfl) _ _
+  unfold moveUbd; exact (foldl_keep (fun s : State => s.startInfo) _ (by intros; rfl) _ _).trans (foldl_keep (fun s : State => s.startInfo) _ (by intros; rfl) _ _)
 theorem moveRed_startInfo (c : Cfg) (frm to : Addr) (s : State) (p) : (moveRed c frm to s p).startInfo = s.startInfo := by
-  unfold moveRed; exact foldl_keep (fun s : State => s.startInfo) _ (by intros; rfl) _ _
+  unfold moveRed; exact (foldl_keep (fun s : State => s.startInfo) _ (by intros; rfl) _ _).trans (foldl_keep (fun s : State => s.startInfo) _ (by intros; rfl) _ _)
 theorem moveUbd_delIdx (c : Cfg) (frm to : Addr) (s : State) (p) : (moveUbd c frm to s p).delIdx = s.delIdx := by
-  unfold moveUbd; exact foldl_keep (fun s : State => s.delIdx) _ (by intros; rfl) _ _
+  unfold moveUbd; exact (foldl_keep (fun s : State => s.delIdx) _ (by intros; rfl) _ _).trans (foldl_keep (fun s : State => s.delIdx) _ (by intros; rfl) _ _)
 theorem moveRed_delIdx (c : Cfg) (frm to : Addr) (s : State) (p) : (moveRed c frm to s p).delIdx = s.delIdx := by
-  unfold moveRed; exact foldl_keep (fun s : State => s.delIdx) _ (by intros; rfl) _ _
+  unfold moveRed; exact (foldl_keep (fun s : State => s.delIdx) _ (by intros; rfl) _ _).trans (foldl_keep (fun s : State => s.delIdx) _ (by intros; rfl) _ _)
 theorem moveRed_ubds (c : Cfg) (frm to : Addr) (s : State) (p) : (moveRed c frm to s p).ubds = s.ubds := by
-  unfold moveRed; exact foldl_keep (fun s : State => s.ubds) _ (by intros; rfl) _ _
+  unfold moveRed; exact (foldl_keep (fun s : State => s.ubds) _ (by intros; rfl) _ _).trans (foldl_keep (fun s : State => s.ubds) _ (by intros; rfl) _ _)
 theorem moveRed_ubdIdx (c : Cfg) (frm to : Addr) (s : State) (p) : (moveRed c frm to s p).ubdIdx = s.ubdIdx := by
-  unfold moveRed; exact foldl_keep (fun s : State => s.ubdIdx) _ (by intros; rfl) _ _
+  unfold moveRed; exact (foldl_keep (fun s : State => s.ubdIdx) _ (by intros; rfl) _ _).trans (foldl_keep (fun s : State => s.ubdIdx) _ (by intros; rfl) _ _)
 theorem moveUbd_ubds (c : Cfg) (frm to : Addr) (s : State) (p) :
     (moveUbd c frm to s p).ubds = rekeyStep frm to s.ubds p := by
-  unfold moveUbd; exact foldl_keep (fun s : State => s.ubds) _ (by intros; rfl) _ _
+  unfold moveUbd; exact (foldl_keep (fun s : State => s.ubds) _ (by intros; rfl) _ _).trans (foldl_keep (fun s : State => s.ubds) _ (by intros; rfl) _ _)
 theorem moveUbd_ubdIdx (c : Cfg) (frm to : Addr) (s : State) (p) :
     (moveUbd c frm to s p).ubdIdx = ins (rem s.ubdIdx (p.1.2, frm)) (p.1.2, to) := by
-  unfold moveUbd; exact foldl_keep (fun s : State => s.ubdIdx) _ (by intros; rfl) _ _
+  unfold moveUbd; exact (foldl_keep (fun s : State => s.ubdIdx) _ (by intros; rfl) _ _).trans (foldl_keep (fun s : State => s.ubdIdx) _ (by intros; rfl) _ _)
 
 theorem exec_dels (c : Cfg) (s : State) (frm to : Addr) :
     (stakingExecute c s frm to).dels = (entriesOf s.dels frm).foldl (rekeyStep frm to) s.dels := by
@@ -303,24 +307,24 @@ theorem portfolio_moved_frame {s s' : State} {frm to : Addr} {sigOk : Bool}
     unfold moved setRecord stakingExecute
     first
       | refine (foldl_keep (fun s : State => s.valTok) _ (fun s p => by
-          unfold moveRed; exact foldl_keep (fun s : State => s.valTok) _ (by intros; rfl) _ _) _ _).trans ?_
+          unfold moveRed; exact (foldl_keep (fun s : State => s.valTok) _ (by intros; rfl) _ _).trans (foldl_keep (fun s : State => s.valTok) _ (by intros; rfl) _ _)) _ _).trans ?_
         refine (foldl_keep (fun s : State => s.valTok) _ (fun s p => by
-          unfold moveUbd; exact foldl_keep (fun s : State => s.valTok) _ (by intros; rfl) _ _) _ _).trans ?_
+          unfold moveUbd; exact (foldl_keep (fun s : State => s.valTok) _ (by intros; rfl) _ _).trans (foldl_keep (fun s : State => s.valTok) _ (by intros; rfl) _ _)) _ _).trans ?_
         exact foldl_keep (fun s : State => s.valTok) _ (by intros; rfl) _ _
       | refine (foldl_keep (fun s : State => s.vals) _ (fun s p => by
-          unfold moveRed; exact foldl_keep (fun s : State => s.vals) _ (by intros; rfl) _ _) _ _).trans ?_
+          unfold moveRed; exact (foldl_keep (fun s : State => s.vals) _ (by intros; rfl) _ _).trans (foldl_keep (fun s : State => s.vals) _ (by intros; rfl) _ _)) _ _).trans ?_
         refine (foldl_keep (fun s : State => s.vals) _ (fun s p => by
-          unfold moveUbd; exact foldl_keep (fun s : State => s.vals) _ (by intros; rfl) _ _) _ _).trans ?_
+          unfold moveUbd; exact (foldl_keep (fun s : State => s.vals) _ (by intros; rfl) _ _).trans (foldl_keep (fun s : State => s.vals) _ (by intros; rfl) _ _)) _ _).trans ?_
         exact foldl_keep (fun s : State => s.vals) _ (by intros; rfl) _ _
       | refine (foldl_keep (fun s : State => s.period) _ (fun s p => by
-          unfold moveRed; exact foldl_keep (fun s : State => s.period) _ (by intros; rfl) _ _) _ _).trans ?_
+          unfold moveRed; exact (foldl_keep (fun s : State => s.period) _ (by intros; rfl) _ _).trans (foldl_keep (fun s : State => s.period) _ (by intros; rfl) _ _)) _ _).trans ?_
         refine (foldl_keep (fun s : State => s.period) _ (fun s p => by
-          unfold moveUbd; exact foldl_keep (fun s : State => s.period) _ (by intros; rfl) _ _) _ _).trans ?_
+          unfold moveUbd; exact (foldl_keep (fun s : State => s.period) _ (by intros; rfl) _ _).trans (foldl_keep (fun s : State => s.period) _ (by intros; rfl) _ _)) _ _).trans ?_
         exact foldl_keep (fun s : State => s.period) _ (by intros; rfl) _ _
       | refine (foldl_keep (fun s : State => s.now) _ (fun s p => by
-          unfold moveRed; exact foldl_keep (fun s : State => s.now) _ (by intros; rfl) _ _) _ _).trans ?_
+          unfold moveRed; exact (foldl_keep (fun s : State => s.now) _ (by intros; rfl) _ _).trans (foldl_keep (fun s : State => s.now) _ (by intros; rfl) _ _)) _ _).trans ?_
         refine (foldl_keep (fun s : State => s.now) _ (fun s p => by
-          unfold moveUbd; exact foldl_keep (fun s : State => s.now) _ (by intros; rfl) _ _) _ _).trans ?_
+          unfold moveUbd; exact (foldl_keep (fun s : State => s.now) _ (by intros; rfl) _ _).trans (foldl_keep (fun s : State => s.now) _ (by intros; rfl) _ _)) _ _).trans ?_
         exact foldl_keep (fun s : State => s.now) _ (by intros; rfl) _ _
 
 /-- **queues_rewritten** (delegations-by-validator index, 0x71): afterwards no index entry mentions the source and
@@ -545,11 +549,11 @@ theorem queues_rewritten_time_slices {s s' : State} {frm to : Addr} {sigOk : Boo
   have hu : get (moved s frm to).ubdQ t = if t ∈ entryTimes s.ubds frm then
       (get s.ubdQ t).map (List.map (renG frm to)) else get s.ubdQ t := by
     show get (stakingExecute cfg (bankExecute cfg s frm to) frm to).ubdQ t = _
-    rw [exec_ubdQ]; exact get_qFold frm to hne _ _ t
+    rw [exec_ubdQ cfg cfg_queue.1 cfg_queue.2]; exact get_qFold frm to hne _ _ t
   have hr : get (moved s frm to).redQ t = if t ∈ entryTimes s.reds frm then
       (get s.redQ t).map (List.map (renG frm to)) else get s.redQ t := by
     show get (stakingExecute cfg (bankExecute cfg s frm to) frm to).redQ t = _
-    rw [exec_redQ]; exact get_qFold frm to hne _ _ t
+    rw [exec_redQ cfg cfg_queue.1 cfg_queue.2]; exact get_qFold frm to hne _ _ t
   refine ⟨fun he => ?_, fun he => ?_, fun he => ?_, fun he => ?_⟩
   · rw [hu, if_pos ((mem_entryTimes _ _ _).mpr he)]; rfl
   · rw [hu, if_neg (fun e => he ((mem_entryTimes _ _ _).mp e))]
@@ -664,9 +668,9 @@ theorem records_kept (s : State) (op : Op) (a : Addr) (h : (get s.recs a).isSome
           have hrec : (stakingExecute cfg (bankExecute cfg s f t) f t).recs = s.recs := by
             unfold stakingExecute
             refine (foldl_keep (fun s : State => s.recs) _ (fun s p => by
-              unfold moveRed; exact foldl_keep (fun s : State => s.recs) _ (by intros; rfl) _ _) _ _).trans ?_
+              unfold moveRed; exact (foldl_keep (fun s : State => s.recs) _ (by intros; rfl) _ _).trans (foldl_keep (fun s : State => s.recs) _ (by intros; rfl) _ _)) _ _).trans ?_
             refine (foldl_keep (fun s : State => s.recs) _ (fun s p => by
-              unfold moveUbd; exact foldl_keep (fun s : State => s.recs) _ (by intros; rfl) _ _) _ _).trans ?_
+              unfold moveUbd; exact (foldl_keep (fun s : State => s.recs) _ (by intros; rfl) _ _).trans (foldl_keep (fun s : State => s.recs) _ (by intros; rfl) _ _)) _ _).trans ?_
             exact foldl_keep (fun s : State => s.recs) _ (by intros; rfl) _ _
           rw [hrec]; exact h
 
@@ -742,7 +746,7 @@ theorem later_behaviour_equal {s s' : State} {frm to : Addr} {sigOk : Bool}
   obtain ⟨hne, _, _, _, _, _, _, rfl⟩ := migrate_ok_inv h
   have hc1 : cfg.rewriteDelIdx = true := by rw [cfg_from_code]
   have hc2 : cfg.rewriteUnbId = true := by rw [cfg_from_code]
-  exact sim_run wf.modFix cfg later hl (sim_init cfg hc1 hc2 cfg_bankAll s hne hto wf)
+  exact sim_run wf.modFix cfg later hl (sim_init cfg hc1 hc2 cfg_bankAll cfg_queue.1 cfg_queue.2 s hne hto wf)
 
 /-- **later_behaviour_equal** (what the target holds and can do): after any such later history the target holds, in
 every denomination, exactly what the source would hold (matured unbonding entries and rewards included), has exactly the
@@ -786,11 +790,22 @@ theorem refused_while_in_open_proposal (s : State) (frm to a : Addr) (sigOk : Bo
   intro s' h
   have h6 := (migrate_ok_inv h).2.2.2.2.2.2.1
   unfold govRefuses at h6
-  rw [cfg_from_code] at h6
+  have hscan : cfg.govScanAll = true := by rw [cfg_from_code]
+  rw [hscan] at h6
   simp only [Bool.true_or, Bool.or_eq_false_iff, List.any_eq_false] at h6
-  have hdep : ∀ id, involvedDeposit s a id → depositCb s frm to id = true := by
+  -- the refusals read from the two callbacks
+  have g1 : cfg.gProposerFrom = true := by rw [cfg_from_code]
+  have g2 : cfg.gProposerTo = true := by rw [cfg_from_code]
+  have g3 : cfg.gDepositFrom = true := by rw [cfg_from_code]
+  have g4 : cfg.gDepositTo = true := by rw [cfg_from_code]
+  have g5 : cfg.gVoteDeposit = true := by rw [cfg_from_code]
+  have g6 : cfg.gVoteFrom = true := by rw [cfg_from_code]
+  have g7 : cfg.gVoteTo = true := by rw [cfg_from_code]
+  have hdep : ∀ id, involvedDeposit s a id → depositCb cfg s frm to id = true := by
     intro id hi
     unfold depositCb
+    rw [g1, g2, g3, g4]
+    simp only [Bool.true_and]
     rcases hi with ⟨pr, hp, he⟩ | hd
     · rw [hp]; rcases ha with rfl | rfl <;> simp [he]
     · cases hp : get s.props id with
@@ -800,6 +815,8 @@ theorem refused_while_in_open_proposal (s : State) (frm to a : Addr) (sigOk : Bo
   · exact h6.1 (t, id) (List.mem_filter.mpr ⟨hq, rfl⟩) (hdep id hi)
   · apply h6.2 (t, id) (List.mem_filter.mpr ⟨hq, rfl⟩)
     unfold voteCb
+    rw [g5, g6, g7]
+    simp only [Bool.true_and]
     rcases hi with hi | hv
     · simp [hdep id hi]
     · rcases ha with rfl | rfl <;> simp [hv]
@@ -836,6 +853,41 @@ example : migrate cfg exState 1 11 false = .error .sig := rfl
 example : migrate cfg exState 1 2 true = .error .toStaking := rfl
 example : (2 = 2 ∨ 2 = 12) ∧ ((210, 1) ∈ exState.inactiveQ ∧ involvedDeposit exState 2 1) :=
   ⟨Or.inl rfl, by decide, Or.inl ⟨_, rfl, rfl⟩⟩
+
+
+/-! ### the theorems depend on the regenerated facts: witnesses for other readings of the code -/
+
+/-- a source whose unbonding delegation with validator 100 has two entries completing at different times -/
+def exTwo : State :=
+  { now := 10, vals := [100], hasKey := [1, 2],
+    dels := [((1, 100), 90)], delIdx := [(100, 1)], startInfo := [((100, 1), (3, 90))],
+    ubds := [((1, 100), [(305, 10, 1), (400, 5, 2)])], ubdIdx := [(100, 1)],
+    ubdQ := [(305, [(1, 100)]), (400, [(1, 100)])], unbId := [(1, (1, 100, none)), (2, (1, 100, none))] }
+
+/-- with the code as it is, both slices are rewritten … -/
+example : get (stakingExecute cfg exTwo 1 11).ubdQ 305 = some [(11, 100)] ∧
+    get (stakingExecute cfg exTwo 1 11).ubdQ 400 = some [(11, 100)] := by decide
+
+/-- … were the entry loop left after the first entry of a record (`qEveryEntry = false`: a `continue`/`break`, or a
+rewrite flag shared by the entries), the second entry's queue element would keep naming the source, and the end blocker
+would never complete it … -/
+example : get (stakingExecute { cfg with qEveryEntry := false } exTwo 1 11).ubdQ 400 = some [(1, 100)] := by decide
+
+/-- … were the already-migrated guards the role-specific direction flags (`recKeyFrom = GetMigratedDirectionFrom`,
+`recKeyTo = GetMigratedDirectionTo`), the source 1 of an accepted migration 1 → 11 could be the target of a later one … -/
+example : ∃ s1 s2,
+    migrate { cfg with recKeyFrom := "GetMigratedDirectionFrom", recKeyTo := "GetMigratedDirectionTo" } exState 1 11 true = .ok s1 ∧
+    migrate { cfg with recKeyFrom := "GetMigratedDirectionFrom", recKeyTo := "GetMigratedDirectionTo" }
+      { s1 with props := [], deposits := [], inactiveQ := [] } 2 1 true = .ok s2 ∧
+    migrate cfg { s1 with props := [], deposits := [], inactiveQ := [] } 2 1 true = .error .migrated :=
+  ⟨_, _, rfl, rfl, rfl⟩
+
+/-- … and were the target's deposit not looked at (`gDepositTo = false`), a target that is depositor of a proposal in its
+deposit period would be accepted -/
+example : migrate cfg { exState with deposits := [((1, 11), 10)], props := [(1, { proposer := 3, status := 0, depEnd := 210, voteEnd := 0, total := 10 })] } 1 11 true = .error .gov ∧
+    ∃ s', migrate { cfg with gDepositTo := false }
+      { exState with deposits := [((1, 11), 10)], props := [(1, { proposer := 3, status := 0, depEnd := 210, voteEnd := 0, total := 10 })] } 1 11 true = .ok s' :=
+  ⟨rfl, _, rfl⟩
 
 /-! ### non-vacuity of later_behaviour_equal -/
 
